@@ -90,4 +90,11 @@ PROPS = {
                       "(ghost evaluation counter), the labelled-DO early abort restores the reader and returns at once",
                 trusted=TRUSTED,
                 explanation="[P] R20 with ghost counter, U8g as part of U8b; global bound not decided"),
+    "C03": dict(level="other", enum=["bounded_expr.py"],
+                claim="the operator table of the 12 expression levels (operand classes, operator pattern, split direction, chaining order) is "
+                      "enumerated against R702-R723 on the real source; grouping of every expression with up to 2 (quick) / 3 (thorough) operators "
+                      "compared with the intended tree and an independent reference parser (bounded); one class of valid inputs is rejected (known finding)",
+                trusted="reference precedence parser spec/reference.py written from the standard; bounded expression depth",
+                explanation="[E] F7 table; [B] Expr vs reference; BinaryOpBase.match / Pattern.rsplit not yet under contract",
+                witnesses=["c03_defined_binary_op_then_dotted_operator"]),
 }
